@@ -5496,7 +5496,11 @@ impl PeerConnectionInner {
     }
 
     fn close_with_reason(&self, reason: DisconnectReason) {
-        if *self.peer_state.borrow() == PeerConnectionState::Closed {
+        // "Already closed" means: this teardown has run. The signaling state is the
+        // one state only this function moves to Closed; the peer state is also set
+        // to Closed by the loops that mirror an ICE transport the application
+        // stopped by hand, after which close() still has everything else to do.
+        if *self.signaling_state.borrow() == SignalingState::Closed {
             return;
         }
 
